@@ -384,6 +384,12 @@ func c18Scens(tier string) []e1Scen {
 				alpha = []sym{{T: 0, D: "f", K: "n"}, {T: 0, D: "q", K: "n"}, {T: 0, D: "q", K: "n", Sz: 3}, {T: 0, D: "S", K: "R"}, {T: 0, D: "f", K: "r"}}
 			}
 			out = append(out, e1Scen{Prop: "C18", Cfg: cfg, Alpha: alpha, Depth: depth, Mode: "tree", Pre: 0, Name: fmt.Sprintf("size-tree-%d", lim), Start: 0, Query: "", Period: 1})
+			if lim%6 == 2 && variant != "ll" {
+				// the extra bytes as filler data NAL units: stuffing is stored like everything else, so it counts
+				fc := cfg
+				fc.Filler = true
+				out = append(out, e1Scen{Prop: "C18", Cfg: fc, Alpha: alpha, Depth: depth, Mode: "tree", Name: fmt.Sprintf("size-tree-filler-%d", lim), Period: 1})
+			}
 			if lim%6 == 4 {
 				// ... and one unit that is larger than the limit all by itself
 				big := append(append([]sym{}, alpha[:4]...), sym{T: 0, D: "f", K: "n", Sz: 70})
